@@ -254,6 +254,7 @@ type Frame struct {
 	retRes     ssa.Value
 	retUnwind  bool
 	isDeferred bool
+	elide      *elideInfo
 }
 
 type nameBinding struct {
